@@ -142,6 +142,7 @@ class BucketSort(Contract):
     invariants, written out over the 8 slots (no quantifier)."""
     name = "_tdma_sched_bucket_sort"
     N = RV.CAP
+    roles = {"i": ("ivar", 2), "j": ("ivar", 3)}      # outer / inner index of the selection sort (loops 2 and 3), whatever they are called
 
     def __init__(self):
         self.loops = {2: LoopSpec(self.outer, self.assigns_seq),
